@@ -40,6 +40,8 @@ SCRIPTS = {
     "helpers_len_list": H + "xs = [1, 2]\nys = [3]\nwhile True:\n    mon.write(len(xs) + len(ys))\n    xs.append(1)\n",
     "functions_three": H + "def f(a):\n    return a + 1\ndef g(a):\n    return f(a) * 2\ndef h(a, b):\n    return g(a) + f(b)\nwhile True:\n" + RD + "    mon.write(h(v, 2))\n",
     "everything": dict(skeletons.feature_family())["feature/everything"],
+    "branch_case_twins": H + "while True:\n" + RD + "    if v > 5:\n        t = 1\n        T = 2\n        tt = 3\n    else:\n        t = 4\n        T = 5\n        tt = 6\n    mon.write(t + T + tt)\n",
+    "try_case_twins": H + "while True:\n    try:\n        ab = 1\n        AB = 2\n        Ab = 3\n    except:\n        ab = 4\n        AB = 5\n        Ab = 6\n    mon.write(ab + AB + Ab)\n",
     "nested_branch_new": H + "while True:\n" + RD + "    if v > 5:\n        if v > 9:\n            aa = 1\n            bb = 2\n        else:\n            aa = 3\n            bb = 4\n        cc = aa + bb\n        dd = cc\n    else:\n        cc = 0\n        dd = 1\n    mon.write(cc + dd)\n",
 }
 
@@ -77,15 +79,28 @@ class PermSet(set):
 
 
 def order_free_sorted(x, *a, **k):
+    """sorted() of a set does not depend on the set's iteration order - unless the sort key ties two distinct
+    elements (sorted is stable, so tied elements keep their iteration order): then the iteration forks as usual."""
     e = pysym.Engine.current
     if e is None:
         return sorted(x, *a, **k)
     prev = getattr(e, "_order_free", False)
     e._order_free = True
     try:
-        return sorted(x, *a, **k)
+        items = list(x)
+        key = k.get("key")
+        ties = False
+        if key is not None and isinstance(x, (set, frozenset)):
+            keys = [key(i) for i in items]
+            try:
+                ties = len(set(keys)) != len(keys)
+            except TypeError:
+                ties = True
+        if not ties:
+            return sorted(items, *a, **k)
     finally:
         e._order_free = prev
+    return sorted(x, *a, **k)
 
 
 class SetRewriter(ast.NodeTransformer):
